@@ -379,7 +379,26 @@ def extract_omen_scorer():
 # ------------------------------------------------------------------ writers
 
 def extract_writer():
-    """calculate_and_save_counter writes str(item[0]) + '\\t' + str(item[1]) + '\\n'."""
+    """calculate_and_save_counter writes str(item[0]) + '\\t' + str(item[1]) + '\\n'.
+
+    Since the translator tie of the writers exists (harness/translate_writer.py: the function is
+    translated on every run and WriterGenProofs.save_counter_eq proves that it writes exactly this
+    line format), this shape check is only the first of two ways to establish the two constants: a
+    spelling it does not recognise is accepted when the translator accepts the function (the
+    equality proof then decides - a changed format breaks save_counter_eq, which C06 / C07 report);
+    when the translator refuses the function too, the original error is raised."""
+    try:
+        return _extract_writer_by_shape()
+    except ExtractError as shape_error:
+        try:
+            import translate_writer
+            translate_writer.render_save()
+        except Exception:
+            raise shape_error
+        return {"writer_separator": "\t", "writer_line_end": "\n"}
+
+
+def _extract_writer_by_shape():
     # Accepted spellings of the same text (any mixture): concatenation with +, an f-string;
     # a field as str(x) or {x} / {x!s} (format(x, '') is str(x) for str, int and float);
     # x as item[k] of the loop variable or as the k-th name of a tuple-unpacking loop target.
